@@ -1,4 +1,4 @@
-// finding=F114 property=C16 status=known kind=exec-hlsl
+// finding=F114 property=C16 status=fixed kind=exec-hlsl
 // HLSL: the keywords sampler1D / sampler2D / sampler3D / samplerCUBE / sampler_state are emitted unchanged as user identifiers
 // expect 0,0[0] = 8
 @group(0) @binding(0) var<storage,read_write> o: array<u32,64>;
